@@ -575,7 +575,7 @@ def native_replay(unit: str, obligation: str, model: dict) -> tuple[bool, str]:
     tmp = tempfile.mkdtemp(prefix="c11_")
     path = os.path.join(tmp, "x.sqlite")
     long_req = S.WriteDataByIdentifierRequest(0x1234, bytes(range(20)))
-    resp: Any = S.WriteDataByIdentifierResponse(0x1234)
+    resp: Any = S.ReadDataByIdentifierResponse(0x1234, bytes(range(0x40, 0x58)))  # > 10 bytes
     if "ReportDTCExtDataRecordByDTCNumberResponse" in unit:
         resp = S.ReportDTCExtDataRecordByDTCNumberResponse((0x123456, 1), {1: b"\x01\x02"})
 
